@@ -235,20 +235,21 @@ Lemma return_step : forall m a0 s w v, rest a0 s w -> crun m a0 s [Return v] = S
 Proof. intros m a0 s w v H. cbn. rewrite (rest_ok_of_rest _ _ _ H). reflexivity. Qed.
 
 Lemma loop_ok : forall m a0 tasks cause w s,
-  rest a0 s w -> all_real w -> exists s', crun m a0 s (loop m true tasks cause w) = Some s'.
+  rest a0 s w -> all_real w ->
+  exists s' w', crun m a0 s (loop m true tasks cause w) = Some s' /\ rest a0 s' w'.
 Proof.
   intros m a0 tasks; induction tasks as [|te tl IH]; intros cause w s Hr Ha; cbn [loop];
     destruct (init m true cause w) as [[ev w1] o] eqn:Ei;
     (eapply init_ok in Ei; eauto); destruct Ei as (s1 & Hc1 & Ha1 & Hp1);
     rewrite crun_app, Hc1.
-  - destruct o; cbn in Hp1; try (eexists; eapply return_step; eassumption).
+  - destruct o; cbn in Hp1; try (do 2 eexists; split; [eapply return_step; eassumption|eassumption]).
     cbn [hd]. destruct (round k kind default_task w1) as [[ev2 w2] ro] eqn:Er.
     eapply round_ok in Er; eauto. destruct Er as (s2 & Hc2 & Hr2 & Hd2).
-    rewrite crun_app, Hc2. destruct ro; eexists; eapply return_step; eassumption.
-  - destruct o; cbn in Hp1; try (eexists; eapply return_step; eassumption).
+    rewrite crun_app, Hc2. destruct ro; do 2 eexists; (split; [eapply return_step; eassumption|eassumption]).
+  - destruct o; cbn in Hp1; try (do 2 eexists; split; [eapply return_step; eassumption|eassumption]).
     cbn [hd]. destruct (round k kind te w1) as [[ev2 w2] ro] eqn:Er.
     eapply round_ok in Er; eauto. destruct Er as (s2 & Hc2 & Hr2 & Hd2).
-    rewrite crun_app, Hc2. destruct ro; [eexists; eapply return_step; eassumption|].
+    rewrite crun_app, Hc2. destruct ro; [do 2 eexists; (split; [eapply return_step; eassumption|eassumption])|].
     apply IH; auto. unfold all_real in *. rewrite Hd2. exact Ha1.
 Qed.
 
@@ -256,12 +257,106 @@ Definition real_script (sc : script) : Prop :=
   sc_real sc = true /\ Forall (fun d => is_real d = true) (sc_dials sc).
 
 (* every trace of the model with the real dial() is accepted by the C11 monitor *)
+Lemma c11_run : forall sc, real_script sc ->
+  exists s' w', crun (sc_mode sc) (sc_autoconf0 sc) (c_init (sc_autoconf0 sc)) (dial_loop sc) = Some s' /\
+    rest (sc_autoconf0 sc) s' w'.
+Proof.
+  intros sc (Hreal & Hd). unfold dial_loop. rewrite Hreal.
+  assert (Hr : rest (sc_autoconf0 sc) (c_init (sc_autoconf0 sc)) (init_world sc)).
+  { exists None, false, false, None. split; reflexivity. }
+  destruct (loop_ok (sc_mode sc) (sc_autoconf0 sc) (sc_tasks sc) None (init_world sc) _ Hr Hd) as (s' & w' & Hs & Hr').
+  exists s', w'. split; [|exact Hr'].
+  rewrite crun_app. destruct (sc_pre sc); cbn [crun cstep]; exact Hs.
+Qed.
+
+(* every trace of the model with the real dial() is accepted by the C11 monitor *)
 Theorem c11_accepts : forall sc, real_script sc ->
   c11_ok (sc_mode sc) (sc_autoconf0 sc) (dial_loop sc) = true.
 Proof.
-  intros sc (Hreal & Hd). unfold c11_ok, dial_loop. rewrite Hreal.
-  assert (Hr : rest (sc_autoconf0 sc) (c_init (sc_autoconf0 sc)) (init_world sc)).
-  { exists None, false, false, None. split; reflexivity. }
-  destruct (loop_ok (sc_mode sc) (sc_autoconf0 sc) (sc_tasks sc) None (init_world sc) _ Hr Hd) as (s' & Hs).
-  rewrite crun_app. destruct (sc_pre sc); cbn [crun cstep]; rewrite Hs; reflexivity.
+  intros sc H. destruct (c11_run sc H) as (s' & w' & Hs & _). unfold c11_ok. rewrite Hs. reflexivity.
+Qed.
+
+(* ------------------------------------------------------------------ consequences of acceptance *)
+
+Definition touches_sysctl (e : event) : bool :=
+  match e with GetAuto _ | SetAuto _ _ | Restore _ _ => true | _ => false end.
+
+(* a monitor never touches the sysctl: the acceptor rejects any such call in Monitor mode *)
+Lemma monitor_no_sysctl : forall a0 l s s',
+  crun Monitor a0 s l = Some s' -> forallb (fun e => negb (touches_sysctl e)) l = true.
+Proof.
+  intros a0 l; induction l as [|e l IH]; intros s s' H; [reflexivity|].
+  cbn [crun] in H. destruct (cstep Monitor a0 s e) as [s1|] eqn:Es; [|discriminate].
+  cbn [forallb]. rewrite (IH _ _ H), Bool.andb_true_r.
+  destruct e; try reflexivity; cbn in Es; try discriminate.
+Qed.
+
+(* restore answers: permission / not-exist are tolerated, anything else is reported *)
+Lemma cleanup_tolerated : forall k prev te w,
+  snd (do_cleanup k (KReal (Some prev)) te w) =
+  match t_restore te with SOther => false | _ => true end.
+Proof. intros; unfold do_cleanup; destruct (t_restore te); reflexivity. Qed.
+
+Lemma cleanup_restores_read_value : forall k prev te w,
+  exists r, In (Restore prev r) (fst (fst (do_cleanup k (KReal (Some prev)) te w))).
+Proof.
+  intros; unfold do_cleanup; destruct (t_restore te); eexists; cbn; right; right; left; reflexivity.
+Qed.
+
+Ltac crush_step H :=
+  repeat match type of H with
+  | context [match ?x with _ => _ end] => destruct x eqn:?; try discriminate
+  end; try (inversion H; subst; clear H).
+
+Definition held (s : cst) : list N := match c_open s with Some k => [k] | None => [] end.
+Fixpoint opens (l : list event) : list N :=
+  match l with [] => [] | OpenConn k :: tl => k :: opens tl | _ :: tl => opens tl end.
+Fixpoint closes (l : list event) : list N :=
+  match l with [] => [] | CloseConn k _ :: tl => k :: closes tl | _ :: tl => closes tl end.
+
+(* one step of an accepted log: a connection is opened only when none is held, closed only when
+   it is the one held; no other event changes what is held *)
+Lemma cstep_held : forall m a0 s e s', cstep m a0 s e = Some s' ->
+  held s ++ opens [e] = closes [e] ++ held s'.
+Proof.
+  intros m a0 s e s' H. destruct s as [op fr sy rd pd dn fl lr].
+  destruct e; cbn in H; unfold held, opt_N_eqb, is_none in *; cbn in *;
+    crush_step H; cbn; rewrite ?app_nil_r; try reflexivity;
+    try (apply N.eqb_eq in Heqb; subst; reflexivity).
+  - destruct op; [discriminate|reflexivity].
+  - destruct op as [k0|]; [|discriminate]. apply N.eqb_eq in Heqb. subst; reflexivity.
+Qed.
+
+Lemma app_opens : forall a b, opens (a ++ b) = opens a ++ opens b.
+Proof. induction a as [|e a IH]; intro b; [reflexivity|]. destruct e; cbn; rewrite ?IH; reflexivity. Qed.
+Lemma app_closes : forall a b, closes (a ++ b) = closes a ++ closes b.
+Proof. induction a as [|e a IH]; intro b; [reflexivity|]. destruct e; cbn; rewrite ?IH; reflexivity. Qed.
+
+(* along an accepted log: at every point, the connections opened so far are exactly the ones
+   closed so far plus the one held (at most one), in the same order *)
+Lemma crun_held : forall m a0 l s s', crun m a0 s l = Some s' ->
+  held s ++ opens l = closes l ++ held s'.
+Proof.
+  intros m a0 l; induction l as [|e l IH]; intros s s' H.
+  - cbn in H; inversion H; subst. cbn. rewrite app_nil_r; reflexivity.
+  - cbn [crun] in H. destruct (cstep m a0 s e) as [s1|] eqn:Es; [|discriminate].
+    apply cstep_held in Es. apply IH in H.
+    change (e :: l) with ([e] ++ l). rewrite app_opens, app_closes, app_assoc, Es, <- app_assoc, H, app_assoc.
+    reflexivity.
+Qed.
+
+
+(* C11 "exactly once, before the next one is opened or the task returns" on the model's traces *)
+Theorem once_model : forall sc, real_script sc ->
+  opens (dial_loop sc) = closes (dial_loop sc) /\
+  (forall pre k post, dial_loop sc = pre ++ OpenConn k :: post -> opens pre = closes pre).
+Proof.
+  intros sc H. destruct (c11_run sc H) as (s' & w' & Hs & Hr). split.
+  - apply crun_held in Hs. destruct Hr as (rd & dn & fl & lr & -> & _). cbn in Hs. rewrite app_nil_r in Hs. exact Hs.
+  - intros pre k post E. rewrite E, crun_app in Hs.
+    destruct (crun (sc_mode sc) (sc_autoconf0 sc) (c_init (sc_autoconf0 sc)) pre) as [s1|] eqn:E1; [|discriminate].
+    apply crun_held in E1. cbn [crun] in Hs.
+    destruct (cstep (sc_mode sc) (sc_autoconf0 sc) s1 (OpenConn k)) as [s2|] eqn:E2; [|discriminate].
+    cbn in E2. destruct s1 as [op fr sy rd1 pd dn1 fl1 lr1]; cbn in *.
+    destruct op; [discriminate|]. cbn in E1. rewrite app_nil_r in E1. exact E1.
 Qed.
